@@ -3,11 +3,15 @@
 kinds of cases
   cls  : {id, kind, cls:[class names], conc:0|1}  -> lex with Lexer(src).tokenize(), evaluate with Context.eval
   src  : {id, kind, src}                           -> evaluate, report outcome and the line lengths of the text
-  grid : {id, kind, recv, vecs:[[arg class]..], allocating:[names], huge:[arg classes], intrep}
-         -> discover every function-valued property of the receiver kind at run time and call it with every
-            argument vector (fresh context per call); one result per call.  Argument classes are rendered by arg_src
-            (C04.tla CoreClasses / MirrorClasses / KindClasses / <route>_<value>); "only" + "form" = one call observed again;
-            "again" (any kind) = observed again after a watchdog expiry, long watchdog only
+  grid : {id, kind, recv, vecs:[[arg class]..], allocating:[names], huge:[arg classes], compiling:[names], nested:[arg classes],
+          ops:[{n, t, ar, g}], oppairs:[[..]], use:[statements], usevecs:[[..]], params:{HostileSize, DeepLevels, MutBudget}, intrep}
+         -> discover every function-valued property of the receiver at run time and call it with every argument vector (fresh
+            context per call); evaluate every operator form (C04.tla Operators: template over @R @0 @1) with the vectors of its
+            arity; when a call returns an object and its vector is a use vector, run the use statements (C04.tla UseOps) on it in
+            the same context (result field "use").  One result per call.  Plain argument classes are rendered by arg_src (C04.tla
+            CoreClasses / MirrorClasses / KindClasses / SmallClasses / i<n> / <route>_<value>), hostile ones by hostile() (callbacks
+            and hooks that mutate the receiver, cyclic / deep values, texts of HostileSize characters) with their prelude;
+            "only" + "form" = one call observed again; "again" (any kind) = observed again after a watchdog expiry, long watchdog only
   fam  : {id, kind, fam:{kind: long|esc|stmt, name, src, ds, n, digit, embed}}   (a case of C04.tla FamCases)
          -> long: render the literal (LONG_FORMS / LONG_EMBEDS), evaluate; esc / stmt: evaluate fam.src;
             nest: evaluate fam.src under a count of the front end's host-level calls (run_counting); chain: render
@@ -225,6 +229,15 @@ def _limit_memory():
     if _rlimit_done:
         return
     _rlimit_done = True
+    # what the scripts print (console.log of a 5000-character argument) goes nowhere: the parent reads the children's pipes one
+    # after the other, a full pipe would block the child until its watchdog fires
+    try:
+        import os
+        import sys
+        sys.stdout.flush()
+        os.dup2(os.open(os.devnull, os.O_WRONLY), 1)
+    except Exception:
+        pass
     try:
         import resource
         resource.setrlimit(resource.RLIMIT_AS, (4 << 30, 4 << 30))
@@ -520,11 +533,14 @@ def grid(case, api):
     use_src = "".join("try { %s } catch (__e) {} " % u.replace("@U", "__u") for u in case.get("use", []))
     oppairs = {tuple(v) for v in case.get("oppairs", [])}
     usevecs = {tuple(v) for v in case.get("usevecs", [])}
+    compiling, nested = set(case.get("compiling", [])), set(case.get("nested", []))
     todo = [(fn, form, None, vec) for fn in fns for form in forms for vec in case["vecs"]]
     todo += [("op:" + op["n"], "op", op, vec) for op in ops for vec in case["vecs"]
              if len(vec) == op["ar"] and (op["ar"] < 2 or tuple(vec) in oppairs)]
     for fn, form, op, vec in todo:
         if fn in alloc and any(a in huge for a in vec):
+            continue
+        if fn in compiling and any(a in nested for a in vec):
             continue
         names, sets, pieces = [], [], []
         for ai, a in enumerate(vec):
